@@ -34,6 +34,7 @@ func init() {
 	register(windowScn{})
 	register(rpcScn{})
 	register(cutScn{})
+	register(hostileScn{})
 }
 
 // RunOpts are per-execution options that do not belong to the plan.
